@@ -14,6 +14,7 @@ to keep stale or conflated type sets (DESIGN.md §8 and known_findings.d/C19.jso
   untyped_assign   assignment whose value the inference cannot type (IfExp, BoolOp, opaque tuple unpacking, loop variable)
   nonlocal_retype  nested function re-binding a nonlocal variable to another type (on some path)
   closure_out      `x = h(g())` where g captures x and the statement changes the type of x
+  starred          `a, *b = t` (the starred name and everything after it are typed by their position in the pattern)
 With the empty profile ("clean") none of them is generated on purpose.
 """
 import collections
@@ -66,7 +67,7 @@ GLOBALS = {'G_I': 'int', 'G_S': 'str', 'G_F': 'float', 'G_L': 'list', 'G_LS': 'l
 # a global that generated functions only ever *shadow* (as a loop variable): the inference must not look locals up outside
 SHADOW_GLOBALS = {'G_X': 'int'}
 
-HAZARDS = ['for_retarget', 'aug_retype', 'with_as', 'untyped_assign', 'nonlocal_retype', 'closure_out']
+HAZARDS = ['for_retarget', 'aug_retype', 'with_as', 'untyped_assign', 'nonlocal_retype', 'closure_out', 'starred']
 BASIC = ['int', 'float', 'bool', 'str', 'list']
 OUTER_NAMES = ['a', 'b', 'c', 'd', 'e', 'x', 'y', 'z']
 INNER_NAMES = ['q', 'r', 's', 't', 'u']
@@ -313,7 +314,7 @@ class Gen:
         if tries > 6:
             return ['    ' * ind + 'pass']
         again = lambda: self.stmt(sc, depth, ind, tries + 1)     # noqa: E731
-        kinds = ['assign'] * 6 + ['retype'] * 3 + ['unpack'] * 2 + ['use'] * 2 + ['sink']
+        kinds = ['assign'] * 6 + ['retype'] * 3 + ['unpack'] * 2 + ['chain'] * 2 + ['use'] * 2 + ['sink']
         if depth < 2:
             kinds += ['if'] * 4 + ['while'] * 2 + ['for'] * 2
         if depth < 2 and not sc.nested and self.nfn < 3:
@@ -366,6 +367,49 @@ class Gen:
             for v, t in zip(names, ts):
                 sc.env[v] = frozenset({t})
             return [pad + '%s = %s' % (lhs, rhs)]
+        if k == 'chain':
+            # t1 = t2 = ... = value: several targets mixing plain names and (nested / starred) patterns, in any order
+            n = r.choice([2, 2, 3])
+            ts = [self.any_type(1) for _ in range(n)]
+            nested = n == 3 and r.random() < 0.4
+            vt = ('prod', ts[0], ('prod', ts[1], ts[2])) if nested else ('prod',) + tuple(ts)
+            ntargets = r.choice([2, 2, 3])
+            av = sc.assignable()
+            r.shuffle(av)
+            lhs, binds = [], []
+            forms = [r.choice(['name', 'pattern', 'pattern']) for _ in range(ntargets)]
+            if 'pattern' not in forms:
+                forms[r.randrange(ntargets)] = 'pattern'
+            for form in forms:
+                if form == 'name':
+                    if not av:
+                        return again()
+                    x = av.pop()
+                    lhs.append(x)
+                    binds.append((x, vt))
+                    continue
+                if len(av) < n:
+                    return again()
+                names = [av.pop() for _ in range(n)]
+                if nested:
+                    style = r.choice(['(%s, (%s, %s))', '%s, (%s, %s)', '[%s, [%s, %s]]', '%s, [%s, %s]'])
+                    lhs.append(style % tuple(names))
+                    binds += list(zip(names, ts))
+                elif 'starred' in P and r.random() < 0.6:
+                    pos = r.randrange(n)
+                    self.features.add('hazard:starred')
+                    lhs.append(', '.join(('*' + v) if i == pos else v for i, v in enumerate(names)))
+                    binds += [(v, 'list' if i == pos else ts[i]) for i, v in enumerate(names)]
+                else:
+                    style = r.choice(['(%s)', '%s', '[%s]'])
+                    lhs.append(style % ', '.join(names))
+                    binds += list(zip(names, ts))
+            self.features.add('chained_assign')
+            rhs = self.expr(sc, vt)
+            self.apply_effects(sc)
+            for v, t in binds:
+                sc.env[v] = frozenset({t})
+            return [pad + ' = '.join(lhs + [rhs])]
         if k == 'use':
             av = sc.assignable()
             if not multi or not av:
@@ -736,6 +780,8 @@ WITNESSES = [
      "def f(p0: int, c0: bool):\n    if c0:\n        ext_sink(c0)\n        y = 1\n    for i1 in [1, 2]:\n        y = i1\n        if c0:\n            c = 1\n            y, c = ('s', p0 >= y)\n        ext_sink(c0)\n", [(1, True)]),
     ('unbounded_products', 'no_fixed_point_unbounded_product_types',
      "def f(c0: bool):\n    x = 1\n    while c0:\n        x = (x, 1)\n    return x\n", [(False,)]),
+    ('starred_target', 'starred_target_typed_by_position',
+     "def f():\n    a, *b = (1, 'x', 2.5)\n    c = b\n    return c\n", [()]),
     ('sibling_call', 'local_function_called_from_sibling',
      "def f():\n    x = 1\n    def g0():\n        return x\n    g0()\n    def g1():\n        return g0()\n    x = 'a'\n    g1()\n    return x\n", [()]),
 ]
